@@ -196,4 +196,170 @@ theorem scheduleTask_colocate (c : Cfg) (s : SchedSt) (r : Req) (tag : Nat) (l :
           subst h
           exact find_tag_append s.coloHist tag _
 
+/-! ### ranks per node -/
+
+/-- number of slots a placement has on the node with index `idx` -/
+def slotsOn (slots : List Slot) (idx : Nat) : Nat := (slots.filter (fun sl => sl.node = idx)).length
+
+theorem slotsOn_append (a b : List Slot) (idx : Nat) : slotsOn (a ++ b) idx = slotsOn a idx + slotsOn b idx := by
+  simp [slotsOn, filter_append]
+
+/-- nothing collected so far lies on the node the loop is looking at (every node is visited once) -/
+theorem alc_not_on_current (nodes : List NodeSt) (hw : NodesWF nodes) (o0 k : Nat) (hk : k < nodes.length)
+    (alc : List Slot) (node : NodeSt) (hnode : nodes[(o0 + k) % nodes.length]? = some node)
+    (hv : ∀ sl ∈ alc, ∃ j, j < k ∧ ∃ n, nodes[(o0 + j) % nodes.length]? = some n ∧ n.index = sl.node) :
+    ∀ sl ∈ alc, sl.node ≠ node.index := by
+  intro sl hs heq
+  obtain ⟨j, hj, n, hn, hni⟩ := hv sl hs
+  have := pos_of_index nodes hw _ _ n node hn hnode (hni.trans heq)
+  have := mod_add_inj o0 nodes.length j k (by omega) hk this
+  omega
+
+/-- **no node gets more slots than the per-node limit** (`slots_per_node`, which the ranks-per-node
+    limit of the task bounds) -/
+theorem nodeLoop_pernode (c : Cfg) (nodes : List NodeSt) (r : Req) (cps spn req : Nat) (mpi : Bool)
+    (colo : Option (List Nat)) (skip : List Nat) (hw : NodesWF nodes) (hnn : NonNeg nodes) (hcps : 0 < cps) (o0 : Nat) :
+    ∀ (count k : Nat) (it it' : IterSt), k + count ≤ nodes.length → NLInv nodes o0 k it →
+      (∀ idx, slotsOn it.alc idx ≤ spn) →
+      nodeLoop c nodes r cps spn req mpi colo skip count it = .ok it' → ∀ idx, slotsOn it'.alc idx ≤ spn := by
+  intro count
+  induction count with
+  | zero =>
+    intro k it it' _ _ hp h
+    simp only [nodeLoop] at h
+    injection h with h; subst h; exact hp
+  | succ count ih =>
+    intro k it it' hk hi hp h
+    unfold nodeLoop at h
+    cases hnode : nodes[it.offset]? with
+    | none =>
+      rw [hnode] at h
+      simp only at h
+      injection h with h; subst h; exact hp
+    | some node =>
+      rw [hnode] at h
+      simp only at h
+      have hklt : k < nodes.length := by omega
+      have hnode' : nodes[(o0 + k) % nodes.length]? = some node := by rw [← hi.off]; exact hnode
+      have hmem : node ∈ nodes := mem_of_getElem? hnode
+      by_cases h1 : coloSkip colo node.index = true
+      · rw [if_pos h1] at h
+        exact ih (k + 1) _ it' (by omega) (nlinv_skip nodes o0 k it hi) hp h
+      · rw [if_neg h1] at h
+        by_cases h2 : node.index ∈ skip
+        · rw [if_pos h2] at h
+          exact ih (k + 1) _ it' (by omega) (nlinv_skip nodes o0 k it hi) hp h
+        · rw [if_neg h2] at h
+          cases hfr : findResources node (min it.rem spn) cps r.gpr r.lfs r.mem
+              (if ¬ mpi = true then false else (it.isFirst || c.scattered || (it.isLast || decide (it.rem < spn)))) with
+          | error e => rw [hfr] at h; simp only at h; cases h
+          | ok res =>
+            rw [hfr] at h
+            simp only at h
+            by_cases h3 : resEmpty res = true
+            · rw [if_pos h3] at h
+              by_cases h4 : ¬ c.scattered = true
+              · rw [if_pos h4] at h
+                refine ih (k + 1) _ it' (by omega) ?_ ?_ h
+                · exact nlinv_next nodes o0 k it [] req true false hi (placeable_nil nodes hnn) (fun sl hs => by cases hs)
+                · intro idx; simp [slotsOn]
+              · rw [if_neg h4] at h
+                refine ih (k + 1) { it with isLast := it.isLast || decide (it.rem < spn), offset := (it.offset + 1) % nodes.length }
+                          it' (by omega) ?_ hp h
+                exact nlinv_next nodes o0 k it it.alc it.rem it.isFirst (it.isLast || decide (it.rem < spn)) hi hi.place
+                  (fun sl hs => by obtain ⟨j, hj, rest⟩ := hi.visited sl hs; exact ⟨j, by omega, rest⟩)
+            · rw [if_neg h3] at h
+              cases res with
+              | none => simp [resEmpty] at h3
+              | some new =>
+                have hfit := findResources_fit node _ cps r.gpr r.lfs r.mem _ new hcps
+                                (fun _ => (hnn node hmem).1) (fun _ => (hnn node hmem).2) hfr
+                have hext := placeable_extend nodes hw o0 k hklt it.alc new node hnode' hi.place hi.visited cps r.gpr r.lfs r.mem hfit.1 hnn
+                have hold := alc_not_on_current nodes hw o0 k hklt it.alc node hnode' hi.visited
+                have hnew_node : ∀ sl ∈ new, sl.node = node.index := fun sl hs => (hfit.1.shape sl hs).1
+                have hpn : ∀ idx, slotsOn (it.alc ++ new) idx ≤ spn := by
+                  intro idx
+                  rw [slotsOn_append]
+                  by_cases hidx : idx = node.index
+                  · subst hidx
+                    have h0 : slotsOn it.alc node.index = 0 := by
+                      simp only [slotsOn, filter_node_nil it.alc node.index hold, length_nil]
+                    have h1' : slotsOn new node.index = new.length := by
+                      simp only [slotsOn, filter_node_all new node.index hnew_node]
+                    rw [h0, h1']
+                    have := hfit.2.1
+                    have := Nat.min_le_right it.rem spn
+                    omega
+                  · have : slotsOn new idx = 0 := by
+                      simp only [slotsOn, filter_node_nil new idx (fun sl hs e => hidx (by rw [← e, hnew_node sl hs])), length_nil]
+                    rw [this]; exact hp idx
+                simp only [resList] at h
+                by_cases h5 : it.rem - new.length = 0
+                · have h' : (Except.ok { alc := it.alc ++ new, rem := 0, isFirst := false,
+                                         isLast := it.isLast || decide (it.rem < spn), offset := it.offset } : Except (Err × Nat) IterSt)
+                              = Except.ok it' := by simpa [h5] using h
+                  injection h' with h'; subst h'; exact hpn
+                · have h' : nodeLoop c nodes r cps spn req mpi colo skip count
+                      { alc := it.alc ++ new, rem := it.rem - new.length, isFirst := false,
+                        isLast := it.isLast || decide (it.rem < spn), offset := (it.offset + 1) % nodes.length } = Except.ok it' := by
+                    simpa [h5] using h
+                  exact ih (k + 1) _ it' (by omega) (nlinv_next nodes o0 k it _ _ _ _ hi hext.1 hext.2) hpn h'
+
+theorem slotsPerNode_le_rpn (c : Cfg) (r : Req) (cps : Nat) (h : r.rpn ≠ 0) : slotsPerNode c r cps ≤ r.rpn := by
+  unfold slotsPerNode
+  simp only [h, ne_eq, not_false_eq_true, if_true]
+  have a : ∀ (x : Nat), (if r.mem ≠ 0 then min x (c.memPn / r.mem) else x) ≤ x := by intro x; split <;> omega
+  have b : ∀ (x : Nat), (if r.lfs ≠ 0 then min x (c.lfsPn / r.lfs) else x) ≤ x := by intro x; split <;> omega
+  have d : ∀ (x : Nat), (if r.gpr ≠ 0 then min x (c.gpn * 16 / r.gpr) else x) ≤ x := by intro x; split <;> omega
+  exact Nat.le_trans (a _) (Nat.le_trans (b _) (Nat.le_trans (d _) (Nat.min_le_right _ _)))
+
+/-- **the ranks-per-node limit holds for the whole placement** -/
+theorem scheduleTask_pernode (c : Cfg) (s : SchedSt) (r : Req) (slots : List Slot) (hw : NodesWF s.nodes) (hnn : NonNeg s.nodes)
+    (h : (scheduleTask c s r).1 = .ok (some slots)) (idx : Nat) :
+    slotsOn slots idx ≤ slotsPerNode c r (cpsOf r) ∧ (r.rpn ≠ 0 → slotsOn slots idx ≤ r.rpn) := by
+  have key : slotsOn slots idx ≤ slotsPerNode c r (cpsOf r) := by
+    unfold scheduleTask at h
+    by_cases h1 : cpsOf r > c.cpn ∨ r.gpr > c.gpn * 16 ∨ r.lfs > c.lfsPn ∨ r.mem > c.memPn
+    · rw [if_pos h1] at h; cases h
+    · rw [if_neg h1] at h
+      by_cases h2 : ¬ decide (r.ranks > 1) = true ∧ r.ranks.toNat > slotsPerNode c r (cpsOf r)
+      · rw [if_pos h2] at h; cases h
+      · rw [if_neg h2] at h
+        have hcps : 0 < cpsOf r := by unfold cpsOf; split <;> omega
+        cases hnl : nodeLoop c s.nodes r (cpsOf r) (slotsPerNode c r (cpsOf r)) r.ranks.toNat (decide (r.ranks > 1))
+                      (coloOf s r) (skipOf s r) s.nodes.length { rem := r.ranks.toNat, offset := s.offset } with
+        | error p => obtain ⟨e, off⟩ := p; rw [hnl] at h; cases h
+        | ok it =>
+          rw [hnl] at h
+          simp only at h
+          have hpn : ∀ idx, slotsOn it.alc idx ≤ slotsPerNode c r (cpsOf r) := by
+            by_cases hoff : s.offset < s.nodes.length
+            · refine nodeLoop_pernode c s.nodes r _ _ _ _ _ _ hw hnn hcps s.offset s.nodes.length 0 _ it (by omega) ?_ ?_ hnl
+              · refine ⟨?_, placeable_nil s.nodes hnn, fun sl hs => by cases hs⟩
+                show s.offset = (s.offset + 0) % s.nodes.length
+                rw [Nat.add_zero, Nat.mod_eq_of_lt hoff]
+              · intro i; simp [slotsOn]
+            · have hnone : s.nodes[s.offset]? = none := by
+                rw [List.getElem?_eq_none_iff]; omega
+              have : nodeLoop c s.nodes r (cpsOf r) (slotsPerNode c r (cpsOf r)) r.ranks.toNat (decide (r.ranks > 1))
+                      (coloOf s r) (skipOf s r) s.nodes.length { rem := r.ranks.toNat, offset := s.offset }
+                      = .ok { rem := r.ranks.toNat, offset := s.offset } := by
+                cases hl : s.nodes.length with
+                | zero => rfl
+                | succ n => unfold nodeLoop; rw [hnone]
+              rw [this] at hnl
+              injection hnl with hnl; subst hnl
+              intro i; simp [slotsOn]
+          unfold finishTask at h
+          by_cases h3 : it.rem > 0
+          · rw [if_pos h3] at h; cases h
+          · rw [if_neg h3] at h
+            have hal : it.alc = slots := by
+              split at h
+              · simp only [Except.ok.injEq, Option.some.injEq] at h; exact h
+              · simp only [Except.ok.injEq, Option.some.injEq] at h; exact h
+            subst hal
+            exact hpn idx
+  exact ⟨key, fun hr => Nat.le_trans key (slotsPerNode_le_rpn c r (cpsOf r) hr)⟩
+
 end RPVerif.Sched
